@@ -35,6 +35,18 @@ theorem isNilField_elim {s : Schema} {v : Value} (h : isNilField s v = true) : s
   cases v <;> simp at this
   rfl
 
+theorem utf8Ok_replicate_null (n : Nat) : utf8OkList (List.replicate n mkNull) = true := by
+  induction n with
+  | zero => rfl
+  | succ n ih =>
+    have h1 : itemUtf8Ok mkNull = true := by simp [itemUtf8Ok, mkNull]
+    simp only [List.replicate_succ, utf8OkList, h1, ih, Bool.and_self]
+
+theorem take_replicate_append {α} (n : Nat) (a : α) (l : List α) : (List.replicate n a ++ l).take n = List.replicate n a := by
+  induction n with
+  | zero => rfl
+  | succ n ih => simp [List.replicate_succ, ih]
+
 theorem decArr_allNil (d : Schema → Item → Option Value) : ∀ fs vs pos, allNil fs vs = true →
     decArr d pos fs [] = some vs ∧ stripList vs = vs := by
   intro fs
@@ -55,7 +67,7 @@ theorem decArr_allNil (d : Schema → Item → Option Value) : ∀ fs vs pos, al
       obtain ⟨ho, hvn⟩ := isNilField_elim hnf
       subst hvn
       obtain ⟨d1, s1⟩ := ih vs (idx + 1) hrest
-      exact ⟨by simp [decArr, ho, d1], by simp [stripList, Value.strip, s1]⟩
+      exact ⟨by simp [decArr, ho, d1, utf8OkList], by simp [stripList, Value.strip, s1]⟩
 
 theorem encArr_good {e : Schema → Value → Option Item} {d : Schema → Item → Option Value}
     {K : Schema → List Ty} {nr : Schema → Prop} :
@@ -102,7 +114,7 @@ theorem encArr_good {e : Schema → Value → Option Item} {d : Schema → Item 
               obtain ⟨w2, l2, vs', d2, s2, n2⟩ := ih (fun q hq => hg q (by simp [hq])) trunc (idx + 1) vs rest (by omega) h3 hr.2 hb
               refine ⟨by simp [wfList_append, wfList_replicate_null, wfList, w1, w2], by simp; omega, v' :: vs', ?_,
                 by simp [stripList, s1, s2], ?_⟩
-              · simp only [decArr, drop_replicate_append]
+              · simp only [decArr, drop_replicate_append, take_replicate_append, utf8Ok_replicate_null, if_true]
                 simp only at d1
                 simp [d1, d2]
               · intro hn
